@@ -128,6 +128,9 @@ pub struct Ctx {
     root_waker: Option<Waker>,
     helpers: Vec<Arc<HelperSlot>>,
     pub helper_handovers: u64,
+    /// Probability (permille) that woken helper threads are passed over at a hand-over point (slow helper).
+    pub helper_skip_permille: u32,
+    helper_skips_in_row: u32,
     pub port_space: u32,
     h3_calls: u32,
     pub run_index: u64,
@@ -514,6 +517,23 @@ fn run_helpers() {
         if runnable.is_empty() {
             return;
         }
+        // A slow helper thread: woken helpers are passed over for a bounded number of hand-over points.
+        {
+            let mut c = shared.lock().unwrap();
+            if c.helper_skip_permille > 0 && c.helper_skips_in_row < 64 && c.aborted.is_none() {
+                let d = c.draw(1000);
+                if d >= 1000 - c.helper_skip_permille {
+                    c.helper_skips_in_row += 1;
+                    *c.probes.entry("helper_thread_passed_over").or_insert(0) += 1;
+                    // Make sure another hand-over point follows even if every task goes idle.
+                    if let Some(w) = &c.root_waker {
+                        w.wake_by_ref();
+                    }
+                    return;
+                }
+            }
+            c.helper_skips_in_row = 0;
+        }
         // Order of helpers is a choice.
         let first = if runnable.len() > 1 { draw(runnable.len() as u32) as usize } else { 0 };
         let slot = &runnable[first];
@@ -725,6 +745,8 @@ where
         root_waker: None,
         helpers: Vec::new(),
         helper_handovers: 0,
+        helper_skip_permille: 0,
+        helper_skips_in_row: 0,
         port_space: 0,
         h3_calls: 0,
         run_index: rc.index,
@@ -780,6 +802,7 @@ where
         let mut c = shared.lock().unwrap_or_else(|e| e.into_inner());
         c.defer_permille = 0;
         c.slow_permille = 0;
+        c.helper_skip_permille = 0;
         c.defer_budget = 0;
         for t in c.tasks.values_mut() {
             t.slow = false;
@@ -823,11 +846,13 @@ where
 pub fn draw_sched_policy() {
     let permille = pick(&[0u32, 0, 20, 100, 300, 600]);
     let slow = pick(&[0u32, 0, 0, 50, 200]);
+    let helper_skip = pick(&[0u32, 0, 0, 0, 500, 950]);
     with(|c| {
         c.defer_permille = permille;
         c.slow_permille = slow;
+        c.helper_skip_permille = helper_skip;
     });
-    mix_plan(permille as u64 * 1000 + slow as u64);
+    mix_plan(permille as u64 * 1000 + slow as u64 + helper_skip as u64 * 1_000_000);
 }
 
 pub fn set_sched_policy(defer_permille: u32, slow_permille: u32) {
